@@ -29,9 +29,10 @@ def gen_cases(ctx, n_grammars, n_inputs):
             ("exprnoprec", lambda: G.expr_grammar(rng, with_prec=False)),
             ("layered", lambda: G.layered_grammar(rng).reduced()),
             ("chain", lambda: G.chain_grammar(rng).reduced()),
-            ("notlalr3", lambda: G.not_lalr_multi(rng).reduced())]
+            ("notlalr3", lambda: G.not_lalr_multi(rng).reduced()),
+            ("depthmerge", lambda: G.depth_merge_grammar(rng).reduced())]
     while len(cases) < n_grammars:
-        name, f = rng.choices(fams, [6, 5, 3, 3, 1, 5, 3, 6])[0]
+        name, f = rng.choices(fams, [6, 5, 3, 3, 1, 5, 3, 6, 4])[0]
         g = f()
         if g is None or not g.is_reduced() or g.derives_cycle():
             continue
